@@ -269,3 +269,31 @@ func IndentProfiles(maxLines int) [][]byte {
 // CollisionRunes: runes whose code point, cut to its low byte, is a delimiter of the grammar
 // (LF CR blank ( ) " # , : ? = { } [ ] . % /): text containing them must pass like any other non-ASCII text.
 const CollisionRunes = "\u010a\u010d\u0120\u0128\u0129\u0122\u0123\u012c\u013a\u013f\u013d\u017b\u017d\u015b\u015d\u012e\u0125\u012f\u4e0a\u4e0d\U0001f60a\u200d"
+
+// SmallScope: every string of up to n symbols of an alphabet of grammar delimiters, placed (a) inside an attribute
+// list and (b) at the start of a template line — small-scope exhaustive inputs for the lexer states that decide on
+// one or two characters of look-ahead.
+func SmallScope(n int) [][]byte {
+	var out [][]byte
+	attr := []string{"a", ":", "#", "{", "}", "\"", "?", ",", " ", "\n", "@", "é", "`"}
+	line := []string{"%", "#", ".", "=", "!", "-", "/", ":", "\\", "{", "[", "<", ">", "a", " ", "@", "é", "\n"}
+	var rec func(alpha []string, k int, cur string, emit func(string))
+	rec = func(alpha []string, k int, cur string, emit func(string)) {
+		if cur != "" {
+			emit(cur)
+		}
+		if k == 0 {
+			return
+		}
+		for _, a := range alpha {
+			rec(alpha, k-1, cur+a, emit)
+		}
+	}
+	rec(attr, n, "", func(s string) {
+		out = append(out, []byte("package x\n\n@goht T(x string) {\n\t%p{"+s+"} t\n}\n"))
+	})
+	rec(line, n, "", func(s string) {
+		out = append(out, []byte("package x\n\n@goht T(x string) {\n\t%p\n\t\t"+s+"x\n}\n"))
+	})
+	return out
+}
